@@ -3,7 +3,7 @@
 From Coq Require Import List ZArith NArith Bool Lia.
 From Coq.Strings Require Import Byte.
 From RimeV Require Import Base.Bytes Eng.Keys Eng.Cand Eng.Segm Eng.Ctx Eng.Engine Eng.Procs Eng.Api Eng.Oracle
-     Eng.Spec Eng.WfView Eng.WfProofs Eng.InvProofs Gen.Keymaps Gen.EngFacts.
+     Eng.Spec Eng.WfView Eng.Utf8Proofs Eng.WfProofs Eng.InvProofs Gen.Keymaps Gen.EngFacts.
 Import ListNotations.
 
 (** Source fact (gen/eng_facts.py, re-read from src/rime/context.cc on every
@@ -40,6 +40,32 @@ Theorem C02_preedit_ranges :
 Proof. exact comp_preedit_wf. Qed.
 Print Assumptions C02_preedit_ranges.
 
+(** The UTF-8 clause: if moreover the translator's candidates for ASCII input
+    strings have texts and preedits that start at character boundaries
+    ([cand_clean]: implied by valid UTF-8) and every set_input argument is
+    ASCII (keys only ever add printable ASCII), then sel_start, sel_end and
+    cursor_pos of every reported preedit are UTF-8 character boundaries of its
+    text ([Spec.wf_view_utf8b]). *)
+Theorem C02_wf_reported_utf8 :
+  forall (cfg : config) (translate : bytes -> seginfo -> list cand),
+    (1 <= cf_page_size cfg)%Z ->
+    (forall i s, (Z.of_nat (length (translate i s)) + cf_page_size cfg < 2147483648)%Z) ->
+    cf_del_checked cfg = true ->
+    (forall i s, all_ascii i -> Forall (fun c => cand_clean c = true) (translate i s)) ->
+    forall ops, Forall op_ascii ops -> forallb wf_obs_utf8b (snd (run cfg translate ops)) = true.
+Proof. exact wf_reported_utf8. Qed.
+Print Assumptions C02_wf_reported_utf8.
+
+(** GetPreedit alone: ASCII inputs, clean selected candidates and a clean
+    prompt give boundary positions, for ANY composition. *)
+Theorem C02_preedit_utf8_boundaries :
+  forall sg full_input caret_pos caret,
+    all_ascii (sg_input sg) -> all_ascii full_input -> Forall seg_clean (sg_segs sg) ->
+    starts_clean (caret ++ comp_prompt sg) = true ->
+    wf_preedit_utf8b (comp_preedit sg full_input caret_pos caret) = true.
+Proof. exact comp_preedit_utf8. Qed.
+Print Assumptions C02_preedit_utf8_boundaries.
+
 (** The hypotheses are met by the synthetic schemas of the correspondence
     check as they are in the current source (both editors, Debug and NDEBUG). *)
 Theorem C02_wf_reported_synth :
@@ -51,6 +77,18 @@ Proof.
   - reflexivity.  (* delete_checked_in_source computes to true from the generated fact *)
 Qed.
 Print Assumptions C02_wf_reported_synth.
+
+Theorem C02_wf_reported_utf8_synth :
+  forall fluid dlog ops, Forall op_ascii ops ->
+    forallb wf_obs_utf8b (snd (run (synth_cfg fluid dlog) oracle_translate ops)) = true.
+Proof.
+  intros fluid dlog. apply wf_reported_utf8.
+  - cbn. lia.
+  - intros i s. pose proof (oracle_translate_length i s). cbn. lia.
+  - reflexivity.
+  - intros i s. apply oracle_translate_clean.
+Qed.
+Print Assumptions C02_wf_reported_utf8_synth.
 
 (** The faithful model of the UNCHECKED DeleteCandidate (the code before the
     repair) refutes the property: two candidates on the page,
